@@ -166,8 +166,15 @@ func (s *subprocessor) beforeMessageBuiltStage(ctx context.Context) (
 	if !localShardWasBroadcast {
 		// We pick a unit at random to fill the common data between the two. All of these values
 		// have already been verified up top.
-		// todo(rdr): there is an issue where unit in 0 is not guaranteed to be non-nil
-		unit := unitsReceived[0]
+		// Any received unit will do (unit 0 is nil unless shard 0 was among the received ones);
+		// the build threshold is at least one, so there is one.
+		var unit *Unit
+		for _, received := range unitsReceived {
+			if received != nil {
+				unit = received
+				break
+			}
+		}
 		localUnit := Unit{
 			CommitteeID: unit.CommitteeID,
 			Publisher:   unit.Publisher,
